@@ -42,6 +42,7 @@ func C09(c *core.Ctx) {
 	c.Rule("C09-R3", "Header.Contains compares every serialised field of head.Header on both headers", 7)
 	c.Rule("C09-R4", "every caller of a verification function heeds its error before any success marker", 4)
 	c.Rule("C09-R5", "Sign signs the header of the same envelope", 1)
+	c.Rule("C09-R6", "inside dsig, every success exit of a key-verifying function has just found the go-jose verification (or a dsig verifier it delegates to) error-free", 2)
 
 	dsigPath := core.ModPath + "/dsig"
 	// protected dsig API: functions of package dsig that reach a go-jose sink
@@ -135,8 +136,11 @@ func C09(c *core.Ctx) {
 			fmt.Sprintf("references %s but neither compares headers with Header.Contains nor heeds a function that does before reporting success", strings.Join(r.refs, ", ")))
 	}
 
+	// R6: inside dsig
+	c09InsideDsig(c, protKind)
+
 	// R3: Contains coverage
-	c09Contains(c)
+	c09Contains(c, "C09-R3")
 
 	// R5: Sign signs recv.Head
 	if fd := p.Func("", "Envelope", "Sign"); fd != nil {
@@ -485,17 +489,17 @@ func c09LoopCoversAll(fd *core.FuncDecl, call *ast.CallExpr) string {
 }
 
 // c09Contains decides R3.
-func c09Contains(c *core.Ctx) {
+func c09Contains(c *core.Ctx, rule string) {
 	p := c.P
 	fd := p.Func("head", "Header", "Contains")
 	if fd == nil {
-		c.Ob("C09-R3", "UNRESOLVED:head.Header.Contains", token.NoPos, false, "method not found")
+		c.Ob(rule, "UNRESOLVED:head.Header.Contains", token.NoPos, false, "method not found")
 		return
 	}
 	info := fd.Pkg.TypesInfo
 	sig := fd.Obj.Type().(*types.Signature)
 	if sig.Params().Len() != 1 {
-		c.Ob("C09-R3", "UNRESOLVED:signature", fd.Decl.Pos(), false, "unexpected signature")
+		c.Ob(rule, "UNRESOLVED:signature", fd.Decl.Pos(), false, "unexpected signature")
 		return
 	}
 	a, b := sig.Recv(), sig.Params().At(0)
@@ -503,7 +507,7 @@ func c09Contains(c *core.Ctx) {
 	cmp := om.ComparedPaths(fd.Decl.Body, a, b)
 	named, st := core.StructOf(a.Type())
 	if st == nil {
-		c.Ob("C09-R3", "UNRESOLVED:struct", fd.Decl.Pos(), false, "receiver is not a struct")
+		c.Ob(rule, "UNRESOLVED:struct", fd.Decl.Pos(), false, "receiver is not a struct")
 		return
 	}
 	for i := 0; i < st.NumFields(); i++ {
@@ -521,7 +525,7 @@ func c09Contains(c *core.Ctx) {
 				}
 			}
 			if len(need) == 0 {
-				c.Undecided("C09-R3", named.Obj().Name()+"."+f.Name(), f.Pos(), "element type has no required fields to identify it by")
+				c.Undecided(rule, named.Obj().Name()+"."+f.Name(), f.Pos(), "element type has no required fields to identify it by")
 				continue
 			}
 		} else {
@@ -534,8 +538,68 @@ func c09Contains(c *core.Ctx) {
 		}
 		for _, path := range need {
 			_, ok := cmp[path]
-			c.Ob("C09-R3", named.Obj().Name()+"."+path, f.Pos(), ok,
+			c.Ob(rule, named.Obj().Name()+"."+path, f.Pos(), ok,
 				fmt.Sprintf("%s never compares %s of the current header with %s of the signed header", fd.Name(), path, path))
+		}
+	}
+}
+
+// c09InsideDsig: every dsig function classified as key-verifying must reach
+// success only where a verifying call (go-jose Verify*, or another verifying
+// dsig function) was executed on this path and its error found nil.
+func c09InsideDsig(c *core.Ctx, protKind map[*types.Func]string) {
+	p := c.P
+	for fn, kind := range protKind {
+		if kind != "verify" {
+			continue
+		}
+		fd := p.DeclOf(fn)
+		if fd == nil {
+			continue
+		}
+		info := fd.Pkg.TypesInfo
+		ff := core.NewFuncFlow(fd)
+		isVerifier := func(f *types.Func) bool {
+			return joseSinkKind(f) == "verify" || (protKind[f] == "verify" && f != fn)
+		}
+		calls := core.CallsTo(info, fd.Decl.Body, isVerifier)
+		n := 0
+		for _, r := range ff.Flow.Returns() {
+			if !ff.Flow.Reachable(r) {
+				continue
+			}
+			k, tc := ff.ClassifyReturn(p, r)
+			if k == core.RetFailure {
+				continue
+			}
+			n++
+			key := fmt.Sprintf("%s#exit%d", fd.Name(), n)
+			if k == core.RetTransfer {
+				if f := core.Callee(info, tc); f != nil && isVerifier(f) {
+					c.Ob("C09-R6", key, r.Pos(), true, "")
+					continue
+				}
+			}
+			ok := false
+			for _, call := range calls {
+				if ff.ErrNilAt(r, call) == 1 && ff.Flow.PassedAt(r)[call] {
+					ok = true
+				}
+			}
+			// `return err` of the verifier itself, untested, is a transfer in disguise
+			if !ok && k == core.RetUnknown && len(r.Results) > 0 {
+				if v := core.VarOf(info, r.Results[len(r.Results)-1]); v != nil {
+					ld := core.NewLocalDefs(info, fd.Decl.Body)
+					if d, has := ld.Before(v, r.Pos()); has {
+						if dc, isCall := ast.Unparen(d.RHS).(*ast.CallExpr); isCall {
+							if f := core.Callee(info, dc); f != nil && isVerifier(f) {
+								ok = true
+							}
+						}
+					}
+				}
+			}
+			c.Ob("C09-R6", key, r.Pos(), ok, "a key-verifying function can report success on a path where no signature verification against the supplied key was found error-free (e.g. a remembered earlier result)")
 		}
 	}
 }
